@@ -63,6 +63,19 @@ pub fn sweep(s: &mut Session, full: bool) -> Value {
         }
         specs.push(("c6", 6, v.iter().map(|x| Literal::Int(*x)).collect(), [v[0], v[1], v[2], v[3], v[4], v[5]], true));
     }
+    // pointer parameters: the address literal must arrive as it is (the function logs what it
+    // reads through it); ACC and LOGN are statics of the program, their values read from /proc
+    if let Some(acc) = find("ACC") {
+        let accv = rd_u64(pid, acc).unwrap_or(0) as i64;
+        for k in &ints {
+            specs.push(("cp", 7, vec![Literal::Address(acc as usize), Literal::Int(*k)], [accv, *k, 0, 0, 0, 0], true));
+            // LOGN changes with every call: its value is filled in right before the call (marker)
+            specs.push(("cq", 8, vec![Literal::Int(*k), Literal::Address(acc as usize), Literal::Address(logn as usize)], [*k, accv, i64::MIN, 0, 0, 0], true));
+        }
+        specs.push(("cp", 7, vec![Literal::Int(5), Literal::Int(1)], [0; 6], false));
+        specs.push(("c1", 1, vec![Literal::Address(acc as usize)], [0; 6], false));
+        specs.push(("cq", 8, vec![Literal::Address(acc as usize), Literal::Address(acc as usize), Literal::Address(acc as usize)], [0; 6], false));
+    }
     // calls that cannot be made
     specs.push(("nosuchfn", 9, vec![], [0; 6], false));
     specs.push(("c1", 1, vec![], [0; 6], false));
@@ -72,8 +85,11 @@ pub fn sweep(s: &mut Session, full: bool) -> Value {
 
     let maps_of = |pid: i32| std::fs::read_to_string(format!("/proc/{pid}/maps")).unwrap_or_default();
     let mut ok_calls = 0u64;
-    for (name, id, args, vals, valid) in specs {
+    for (name, id, args, mut vals, valid) in specs {
         evals += 1;
+        if vals[2] == i64::MIN {
+            vals[2] = rd_u64(pid, logn).unwrap_or(0) as i64;
+        }
         let regs0 = nix::sys::ptrace::getregs(tid).ok();
         let text0 = s.text_diff(pid);
         let maps0 = maps_of(pid);
